@@ -5298,7 +5298,11 @@ class PyCdlib:
                 parent_file_mode = parent.rock_ridge.get_file_mode()
             else:
                 if parent.is_root:
+                    # The root directory record itself carries no Rock
+                    # Ridge; its 'dot' record does.
                     parent_file_mode = file_mode
+                    if parent.children and parent.children[0].rock_ridge is not None:
+                        parent_file_mode = parent.children[0].rock_ridge.get_file_mode()
 
             dotdot = self._create_dotdot(self.pvd, rec, self.rock_ridge,
                                          relocated, self.xa, parent_file_mode)
